@@ -31,7 +31,7 @@ def _sources(rng, shape, T):
     out = []
     for n in range(rng.randint(1, 3)):
         kind = rng.choice(["dipole", "dipole", "mdipole", "plane", "gauss"])
-        sw = rng.choice([{}, {"interval": 2}, {"start_after_periods": 0.4, "period": 2e-15}, {"fixed_on_time_steps": sorted(rng.sample(range(T), max(1, T // 2)))}, {"is_always_off": True}])
+        sw = rng.choice([{}, {"interval": 2}, {"start_after_periods": 0.4, "period": 2e-16}, {"fixed_on_time_steps": sorted(rng.sample(range(T), max(1, T // 2)))}, {"is_always_off": True}])
         s = {"kind": kind, "switch": sw, "saf": rng.choice([1.0, 0.5, -2.0]), "amp": rng.choice([1.0, 3.0]), "wl": rng.choice([400e-9, 800e-9]), "name": f"s{n}"}
         prof = rng.choice(["single", "gauss", "custom"])
         if prof == "gauss":
